@@ -502,6 +502,7 @@ type FuncContract struct {
 	Modifies  []*SX
 	HasMod    bool
 	ModAll    bool
+	Models    string // "pkgpath#Func": this contract describes that library function for arguments of the parameter's dynamic type
 	Loops     map[int]*LoopSpec
 	Flags     map[string]bool // nopanic safe pure inline trusted
 	External  bool
@@ -581,7 +582,7 @@ type ContractSet struct {
 var clauseKeywords = map[string]bool{
 	"func": true, "requires": true, "ensures": true, "preserves": true, "modifies": true, "loop": true,
 	"invariant": true, "decreases": true, "assert": true, "nopanic": true, "safe": true, "pure": true,
-	"inline": true, "trusted": true, "spec": true, "lemma": true, "ghost": true, "external": true,
+	"inline": true, "trusted": true, "models": true, "spec": true, "lemma": true, "ghost": true, "external": true,
 	"guarded": true, "atomic": true, "immutable": true, "confined": true, "purefunc": true, "bounded": true,
 }
 
@@ -863,6 +864,17 @@ func (cs *ContractSet) ParseFile(path, pkgdir string) error {
 				cur.Tags[t] = true
 			}
 			cur.CallAsserts = append(cur.CallAsserts, &CallAssert{Callee: callee, K: k, Clause: c})
+		case "models":
+			if cur == nil {
+				return fmt.Errorf("%s:%d: models outside func", path, it.line)
+			}
+			q := strings.TrimSpace(rest)
+			dot := strings.LastIndex(q, ".")
+			if dot < 0 {
+				return fmt.Errorf("%s:%d: models needs pkg.Func", path, it.line)
+			}
+			cur.Models = q[:dot] + "#" + q[dot+1:]
+			cur.Flags["trusted"] = true
 		case "nopanic", "safe", "pure", "inline", "trusted":
 			if cur == nil {
 				return fmt.Errorf("%s:%d: flag outside func", path, it.line)
